@@ -3,13 +3,15 @@ fn main() {
     let args: Vec<String> = std::env::args().collect();
     let mk = match args[1].as_str() { "std" => MatchKind::Standard, "lf" => MatchKind::LeftmostFirst, _ => MatchKind::LeftmostLongest };
     let pats: Vec<Vec<u8>> = args[2..].iter().map(|s| s.as_bytes().to_vec()).collect();
-    let nn = noncontiguous::Builder::new().prefilter(false).match_kind(mk).build(&pats).unwrap();
+    let pf = std::env::var("PF").is_ok();
+    let nn = noncontiguous::Builder::new().prefilter(pf).match_kind(mk).build(&pats).unwrap();
     let cn = contiguous::Builder::new().build_from_noncontiguous(&nn).unwrap();
     let d = dfa::Builder::new().start_kind(StartKind::Both).build_from_noncontiguous(&nn).unwrap();
     emit_rel(&nn, &cn, &d);
     print!("pub const PATS: &[&[u8]] = &[");
     for p in &pats { print!("&{:?}, ", p); }
     println!("];");
+    println!("// prefilter: {}", d.verif_prefilter_debug());
     let r = d.verif_to_raw();
     println!("pub mod d {{");
     println!("pub const TRANS: &[u32] = &{:?};", r.trans);
